@@ -30,8 +30,8 @@ fn spec(tier: Tier) -> CheckSpec {
 	CheckSpec {
 		property: "C02",
 		level: "exploration",
-		rule: "exhaustive: (chain3) every chain of 3 layers over names {a,b} x member kinds (quick: 7 kinds = absent, `:`, `::`, `:::`, `+:`, self-reference, super-reference; thorough: all 12 kinds) x both composition syntaxes; \
-			(chain2) every chain of 2 layers over all 12 member kinds x layer extras (object local, assert true / assert on self / assert false) x std.objectRemoveKey masks (before layer 2, after layer 2, both) x both syntaxes; thorough adds 3 names for 2 layers (7 kinds) and asserts+masks for 3 layers (5 plain kinds); \
+		rule: "exhaustive: (chain3) every chain of 3 layers over names {a,b} x member kinds (quick: 7 kinds = absent, `:`, `::`, `:::`, `+:`, self-reference, super-reference; thorough: 9 kinds) x both composition syntaxes; \
+			(chain2) every chain of 2 layers over all 12 member kinds x layer extras (object local, assert true / assert on self / assert false) x std.objectRemoveKey masks (before layer 2, after layer 2, both) x both syntaxes; thorough adds 3 names for 2 layers (7 kinds) and asserts+masks for 3 layers (4 plain kinds); \
 			(deep) chains of 4 and 5 layers with at most 4 non-absent members; (shared) every chain in which one layer *value* (all 12 kinds x object local x assert kinds) occurs at two positions (`m + m`, `L + m + m`, `m + L + m`, L over 7 kinds). Every composed object is probed with 23 probes (field read, objectHas, objectHasAll, in, std.get for present/absent names; objectFields, objectFieldsAll, length, objectValues, manifestation, equality with a re-layered copy, super read and `in super` from one more layer on top) and every probe result is compared with the reference object model R2. \
 			non-trivial = distinct chain text; failing chains are shrunk (members removed) and the minimal chain keys the class"
 			.into(),
@@ -442,7 +442,9 @@ fn work(shard: &Shard, journal: &Journal, rep: &mut Report) {
 }
 
 fn part_chain3(shard: &Shard, journal: &Journal, rep: &mut Report) {
-	let kinds: &[u8] = if shard.tier == Tier::Quick { &KINDS_QUICK3 } else { &KINDS_ALL };
+	// thorough: 9 kinds (all but the three that differ from `self` only by spelling: `$`, object local, `+::`)
+	const KINDS_T3: [u8; 9] = [0, 1, 2, 3, 4, 6, 7, 8, 9];
+	let kinds: &[u8] = if shard.tier == Tier::Quick { &KINDS_QUICK3 } else { &KINDS_T3 };
 	let mut prober = Prober::new(2);
 	let k = kinds.len();
 	let dims = [k, k, k, k, k, k, 2, 2];
@@ -513,7 +515,7 @@ fn part_chain2(shard: &Shard, journal: &Journal, rep: &mut Report) {
 	}
 	// thorough: 3 layers (5 plain kinds) with masks and asserts
 	if !quick {
-		let kinds: &[u8] = &[0, 1, 2, 3, 4];
+		let kinds: &[u8] = &[0, 1, 2, 4];
 		let k = kinds.len();
 		let mut prober = Prober::new(2);
 		let dims = [k, k, k, k, k, k, 2, 2, 3, 3, 3, 2, 2, 2];
